@@ -1,7 +1,7 @@
 (* C11 - line-search steps are feasible, within budget and strictly downhill.
    Restates lemmas about [line_search] of the driver model (coq/Model/Driver.v, hand-written from linesearch.py). *)
 From Coq Require Import List ZArith Bool String Lia Floats.PrimFloat.
-From LBFGSB Require Generated.MaxStep Generated.Base Generated.MainLoop Generated.StopTests Model.NumpyOps.
+From LBFGSB Require Generated.MaxStep Generated.Base Generated.MainLoop Generated.LsBook Generated.StopTests Model.NumpyOps Proofs.DriverSplit.
 From LBFGSB Require Import Base.Res Base.Hoare Base.FloatOrd Model.SF Model.FloatVec Model.Driver Generated.Consts
   Proofs.SFProofs Proofs.SFPoints Proofs.DriverBox Proofs.DriverReport Proofs.DriverValues Proofs.DriverLineSearch
   Model.Dcsrch Model.DriverDcs Proofs.DcsrchProofs Proofs.DriverDcsrch Proofs.FloatZero Proofs.DriverStepPositive.
@@ -128,6 +128,35 @@ Theorem C11_first_step_from_source : forall (K : kern) (c : cfg) (d : vec) (nit 
   LBFGSB.Generated.MainLoop.first_step (vdot K) (nit =? 0) (is_boxed c) d stpmax =
   (if (nit =? 0) && negb (is_boxed c) then StopTests.pymin (div fone (sqrt (vdot K d d))) stpmax else fone).
 Proof. reflexivity. Qed.
+
+(* WHICH trial step is handed back: the bookkeeping of line_search - best_stp = None, best_f = f0; after every evaluation
+   `if f_m1 < best_f: best_f = f_m1; best_stp = steplength`; after the loop the three `return None` tests and `steplength = best_stp` -
+   is recognised statement by statement in the source on every run (Generated/LBFGSB.Generated.LsBook.v) and IS what the model's loop and
+   line_search do (the comparison with the PREVIOUS trial of the pinned tree, defect D3, and a start value of +inf are other terms) *)
+Definition conv_or_warn (t : Driver.task) : bool := match t with Driver.TConv | Driver.TWarn => true | _ => false end.
+Theorem C11_best_trial_from_source : forall (U : user) (K : kern) (c : cfg),
+  (* one pass of the loop whose routine answers FG *)
+  (forall k xk d par s stp, dcs K par (l_hist s ++ [(l_stp s, l_f s, l_dphi s)]) = (stp, Driver.TFG) ->
+     ls_loop U K c (S k) xk d par s =
+     bind (sf_fun_and_grad U (vclip (vaxpy xk stp d) (lb c) (ub c)) (l_sf s))
+          (fun '(f, g, t1) => let b := LBFGSB.Generated.LsBook.best_update f stp (l_best s, l_bestf s) in
+             ls_loop U K c k xk d par (mklss stp f (vdot K g d) (l_hist s ++ [(l_stp s, l_f s, l_dphi s)]) (fst b) (snd b) Driver.TFG stp t1))) /\
+  (* the whole search *)
+  (forall xk f0 g0 d nit cap t,
+     line_search U K c xk f0 g0 d nit cap t =
+     bind (ls_loop U K c (Z.to_nat cap) xk d (ftol_ls c, gtol_ls c, xtol_ls c, stpmax_of c xk d nit)
+             (mklss (LBFGSB.Generated.MainLoop.first_step (vdot K) (nit =? 0) (is_boxed c) d (stpmax_of c xk d nit)) f0 (vdot K g0 d) []
+                    (fst (LBFGSB.Generated.LsBook.best_init f0)) (snd (LBFGSB.Generated.LsBook.best_init f0)) Driver.TFG
+                    (LBFGSB.Generated.MainLoop.first_step (vdot K) (nit =? 0) (is_boxed c) d (stpmax_of c xk d nit)) t))
+          (fun s => ret (LBFGSB.Generated.LsBook.ls_result (l_last s) (conv_or_warn (l_task s)) (l_best s), l_sf s))).
+Proof.
+  intros U K c. split.
+  - intros k xk d par s stp H. cbn [ls_loop]. rewrite H. apply DriverSplit.bind_ext. intros [[f g] t1].
+    unfold LBFGSB.Generated.LsBook.best_update. cbn [snd fst]. destruct (ltb f (l_bestf s)); reflexivity.
+  - intros xk f0 g0 d nit cap t. unfold line_search, stpmax_of. apply DriverSplit.bind_ext. intros s.
+    unfold LBFGSB.Generated.LsBook.ls_result, conv_or_warn, fzero. destruct (negb (FloatVec.is_finite (l_last s)) || eqb (l_last s) 0); [reflexivity|].
+    destruct (l_task s); reflexivity.
+Qed.
 
 (* the first-step rule, the iteration-0 cap and the arguments handed to DCSRCH are those of the source *)
 Theorem C11_source_pins :
